@@ -9,6 +9,7 @@ func init() {
 	register("C01", checkC01)
 	register("C09", checkC09)
 	register("C08", checkC08)
+	register("C11", checkC11)
 }
 
 // C01 - routing selects the documented route with the correct parameters.
@@ -34,4 +35,14 @@ func checkC08(r *Run) {
 	g := newMatchGen(rng, pick(r, 18, 30), pick(r, 4, 6), 3, pick(r, 5, 6), pick(r, 120, 200), true)
 	g.Hosts = g.Hosts[:pick(r, 3, 6)]
 	runMatchD1(r, g, "tsr", true, pick(r, 5*time.Minute, 40*time.Minute))
+	runServeD1(r, newServeGen(r, rng), "C08", pick(r, 5*time.Minute, 40*time.Minute))
+	r.assumption("Location is compared after RFC 3986 resolution against the request URL (net/url)")
+	r.assumption("CONNECT routes that ignore trailing slashes are not generated (DESIGN.md 7)")
+}
+
+// C11 - unserved requests get the right 404/405/OPTIONS answer and Allow header.
+func checkC11(r *Run) {
+	rng := rand.New(rand.NewSource(r.Seed))
+	runServeD1(r, newServeGen(r, rng), "C11", pick(r, 5*time.Minute, 40*time.Minute))
+	r.assumption("Allow is compared as a set; for 405 with automatic OPTIONS enabled, OPTIONS may additionally be listed")
 }
